@@ -332,7 +332,7 @@ pub fn build_world(seed: u64, idx: u64, out: &mut RunOut) -> World {
   }
   let dcfg = DocCfg::swarm(&mut rk);
   let enc = EncCfg::swarm(&mut rk);
-  let source = rk.weighted(&[4, 8, 3, 2, 1, 1, 1]);
+  let source = rk.weighted(&[4, 8, 3, 2, 1, 1, 1, 1]);
   match source {
     0 => {
       // valid data at rest: corpus
@@ -401,6 +401,18 @@ pub fn build_world(seed: u64, idx: u64, out: &mut RunOut) -> World {
       w.origin = "grammar".into();
       out.probe("src_grammar");
     }
+    7 => {
+      // numeric edges: ranges, comparison controls, bignum / decimal-fraction tags, special floats
+      let (schema, doc) = numeric_edge_case(&mut rw);
+      w.schema = schema.into_bytes();
+      w.json = Some(to_json(&doc).into_bytes());
+      let mut b = Vec::new();
+      to_cbor(&doc, &mut b, &enc, &mut rw);
+      w.cbor = Some(b);
+      w.csv = Some(format!("{}\n", to_json(&doc)).into_bytes());
+      w.origin = "numeric-edge".into();
+      out.probe("src_numeric_edge");
+    }
     6 => {
       // a legitimately recursive schema and data that recurses (or almost conforms) to depth <= 63
       let (schema, doc, shape) = recursive_case(&mut rw);
@@ -448,7 +460,7 @@ pub fn build_world(seed: u64, idx: u64, out: &mut RunOut) -> World {
     }
   }
   // faults on the data at rest
-  if source != 4 && source != 5 && source != 6 && rk.chance(2, 3) {
+  if source != 4 && source != 5 && source != 6 && source != 7 && rk.chance(2, 3) {
     let nf = rf.range(1, 3);
     let which = rf.below(4);
     let mut log = Vec::new();
